@@ -275,10 +275,12 @@ class _Scrubber:
                 env["resource"][k] = "***"
 
 
-def flavours_and_mutation(run: lib.Run, audit: dict):
+def flavours_and_mutation(run: lib.Run, audit: dict, widen: bool = False):
     quick = run.tier == "quick"
     cases = list(gc.enum_cases(True))[:: (6 if quick else 2)]
     cases += list(gc.random_cases(run.seed * 1409 + 14, 700 if quick else 7000, hostile=0.1, rel=0.3, nested=0.3))
+    if widen:        # an obligation about the API flavours no longer checks: search further for inputs on which they differ
+        cases += list(gc.random_cases(run.seed * 1409 + 15, 1400 if quick else 7000, hostile=0.1, rel=0.3, nested=0.3))
     for i, (pol, req, cfg) in enumerate(cases):
         cfg = {**cfg, "metrics": True, "logger": True}
         pol_before, req_before = proto.canon(pol), proto.canon(req)
@@ -411,6 +413,27 @@ def ambient_context(run: lib.Run) -> None:
                                               "spec": "a collaborator saw the ambient context of an EARLIER call (neither the caller's current context nor none): the decision depends on the thread's history"})
 
 
+def core_assembly_obligation(run: lib.Run, audit: dict) -> tuple[bool, str]:
+    """run and register the per-run obligation C14_core_assembly (facts of the plugin extractors/src_translation_sinks.py); shared with C11
+    ("exactly one audit record and one metric per evaluation" needs the sink block to be run exactly once per evaluation)"""
+    asm = audit["facts"].get("translated_sinks")
+    failed = None
+    if not isinstance(asm, dict):
+        failed = "no facts extracted"
+    elif "extraction_failed" in asm:
+        failed = asm["extraction_failed"]
+    elif "failed" in asm.get("assembly", {}):
+        failed = asm["assembly"]["failed"]
+    ok_asm, detail_asm = lib.run_obligation("C14_core_assembly")
+    run.obligation("C14_core_assembly: Guard._evaluate_core_async is exactly [start; engine_env range; cache protocol range; engine_gate range; sink "
+                   "block] with no statement outside the designated ranges and no return before the sink block; no other place of the class reads the "
+                   "sink objects; evaluate_async, evaluate_sync (both branches), is_allowed_sync, is_allowed_async each reach the core exactly once "
+                   "with their four arguments unchanged and hand back its result (resp. `.allowed`) — for every behaviour of the core",
+                   ok_asm, "discharged" if ok_asm else (str(failed) if failed else detail_asm))
+    run.extra["core_assembly"] = asm.get("assembly") if isinstance(asm, dict) else asm
+    return ok_asm, detail_asm
+
+
 def check(run: lib.Run, audit: dict) -> int:
     run.rule = ("deadlock: per-run obligation over 5 traced scenarios (check / start+stop × plain / running loop × initial load) + every blocking "
                 "entry point × {plain thread, running loop, worker thread} under a watchdog (28 probes per context incl. collaborators that re-enter a second Guard, async source, stop(None) "
@@ -427,13 +450,16 @@ def check(run: lib.Run, audit: dict) -> int:
     ok, detail = lib.run_obligation("C14_locks")
     run.obligation("C14_locks: LockFreeWhileBlocking on every traced reloader scenario", ok, detail if not ok else "discharged")
     run.extra["traced_scenarios"] = {k: v["progs"] for k, v in progs.items()} if isinstance(progs, dict) and "extraction_failed" not in progs else progs
+    # "one core", read off the source text: the core method is the designated (translated) ranges in sequence with nothing in between, every
+    # API flavour hands back the core's outcome on its own four arguments (resp. its `.allowed`), sinks are touched only in the sink block
+    ok_asm, detail_asm = core_assembly_obligation(run, audit)
     blocking_entry_points(run)
     if any(f.get("observed") == "did not return within the watchdog" for f in run.spec_failures):
         # an entry point hung: its threads are still parked inside the engine (possibly holding a shared helper loop or a lock), so
         # further in-process evaluations could block for ever — the hang is the finding; report it now
         run.notes.append("an entry point did not return: flavour / mutation / concurrency parts skipped (process state is no longer trustworthy)")
     else:
-        flavours_and_mutation(run, audit)
+        flavours_and_mutation(run, audit, widen=not ok_asm)
         concurrency(run)
         ambient_context(run)
         # one evaluation paused inside its decision while another request is decided on a second thread (shared with C09)
@@ -451,6 +477,15 @@ def check(run: lib.Run, audit: dict) -> int:
         path = run.write_replay("obligation", {"what": "per-run obligation Rbacx/Run/C14_locks.lean no longer checks (a thread waits for another while "
                                                "holding the lock, or the traced skeleton changed shape); theorem Rbacx.C14.c14_no_deadlock no longer "
                                                "applies", "traced": progs, "lean": detail})
+        violations.append((path, False))
+    elif not ok_asm:
+        # the flavour / mutation comparison above (widened) is the search for an input on which the API flavours differ; none found
+        path = run.write_replay("obligation", {"what": "per-run obligation Rbacx/Run/C14_core_assembly.lean no longer checks: the source text of "
+                                               "Guard._evaluate_core_async is no longer exactly the designated ranges in sequence, or a sink object is "
+                                               "read outside the sink block, or an API flavour (evaluate_async / evaluate_sync / is_allowed_*) no "
+                                               "longer hands back the core's outcome on its own arguments unchanged: `sync = async = in-loop sync` is "
+                                               "no longer read off the source; the widened flavour comparison found no input on which they differ",
+                                               "assembly": run.extra.get("core_assembly"), "lean": detail_asm[-1500:]})
         violations.append((path, False))
     return run.finish(audit, violations)
 
